@@ -22,11 +22,11 @@ Clauses ==
                    idset |-> IF x.all \/ x.task = 0 THEN {} ELSE ClosureIds(H.graph, x.task)]
         common == StateClauses(A) \cup (IF l = 1 THEN StateClauses(B) ELSE {})
         spec ==
-          CASE cmd = "run"     -> RunClauses(B, A, E.spawns, E.head, E.dirty, E.crashed)
+          CASE cmd = "run"     -> RunClauses(B, A, SetOf(E.spawns), E.head, E.dirty, E.crashed)
             [] cmd = "gc"      -> GcClauses(B, A, E.exit, E.crashed)
-            [] cmd = "gcdry"   -> GcDryClauses(B, A, E.exit, E.listed)
-            [] cmd = "archive" -> ArchiveClauses(B, A, E.exit, Sel(E.sel), E.arows, E.members)
-            [] cmd = "restore" -> RestoreClauses(B, A, E.exit, E.crashed, E.arch)
+            [] cmd = "gcdry"   -> GcDryClauses(B, A, E.exit, SetOf(E.listed))
+            [] cmd = "archive" -> ArchiveClauses(B, A, E.exit, Sel(E.sel), SetOf(E.arows), SetOf(E.members))
+            [] cmd = "restore" -> RestoreClauses(B, A, E.exit, E.crashed, [rows |-> SetOf(E.arch.rows), members |-> SetOf(E.arch.members), defect |-> E.arch.defect])
             [] cmd = "roundtrip" -> RoundTripClauses(B, A, Sel(E.sel))
             [] cmd = "clean"   -> CleanClauses(B, A)
             [] cmd = "where"   -> WhereClauses(B, A)
